@@ -687,3 +687,7 @@ PROPS["C19"]["rule"] += ("; thorough tier also runs 16 reduced shards of the sam
 PROPS["C17"]["rule"] += ("; identity clause in twelve calendars (gregory, japanese, buddhist, roc, coptic, ethiopic, ethioaa, hebrew, indian, persian, islamic-civil, iso8601): each own field "
                          "(day, year, monthCode, month, era + eraYear, monthCode + day) applied through PlainDate::with / PlainDateTime::with must return the receiver")
 PROPS["C17"]["manifest"]["text"] += " The identity clause (a value's own fields applied to itself) is also evaluated for receivers in eleven non-ISO calendars."
+PROPS["C10"]["rule"] += "; the increment constructors themselves (RoundingIncrement::try_new for 0, 1, 10^9 - 1, 10^9, 10^9 + 1, u32::MAX; try_from(f64) incl. fractions, 10^9 + 0.5, negatives, infinities, NaN) are judged first: valid exactly when 1 <= truncate(v) <= 10^9"
+PROPS["C17"]["rule"] += "; PlainYearMonth::from_partial over every subset of year / month / monthCode / day (missing year or month is a TypeError before any value is looked at)"
+PROPS["C20"]["rule"] += ("; the operation mix includes calls that fail after the provider has been taken (add / subtract leaving the range) and zones given in other spellings of their name "
+                         "(lower / upper / mixed case through the public enum variant), the latter judged against a brand-new provider")
